@@ -1,10 +1,33 @@
 package main
 
-import "fmt"
+import (
+	"fmt"
+	"strings"
+)
 
 // propertyExtras: obligations that are not attached to one function contract (filled in per property).
 func (e *Engine) propertyExtras(prop, only string) ([]*Obligation, []*Unit) {
-	return nil, nil
+	if prop != "C20" {
+		return nil, nil
+	}
+	fns, acc := e.guardFunctions()
+	var obls []*Obligation
+	var units []*Unit
+	for _, fn := range fns {
+		if only != "" && !strings.Contains(fn.String(), only) {
+			continue
+		}
+		u := e.VerifyGuards(fn, acc)
+		for _, a := range e.guardAssume {
+			u.Assumptions[a] = true
+		}
+		for _, a := range e.guardNotes {
+			u.Assumptions["note: "+a] = true
+		}
+		units = append(units, u)
+		obls = append(obls, u.Obls...)
+	}
+	return obls, units
 }
 
 func tryReplay(e *Engine, ob *Obligation, extra map[string]interface{}) bool {
